@@ -108,6 +108,9 @@ def truth(run, v):
     if isinstance(ty, TRef):
         return t != 0
     if isinstance(ty, TTup):
+        h = run.x.reg.stubs.get(("truth", ty.name))
+        if h is not None:
+            return h(run, v)
         return z3.BoolVal(len(ty.items) > 0)
     if ty is TAny:
         P = TAny.sort()
@@ -307,7 +310,7 @@ def getslice(run, base, lo, hi, node):
     if ty is TStr or isinstance(ty, TSeq):
         n = z3.Length(base.t)
         a, b = py_slice_bounds(run, n, lo, hi, node)
-        a, b = z3.simplify(a), z3.simplify(b)
+        a, b = run.try_const(a), run.try_const(b)
         return Val(ty, z3.Extract(base.t, a, z3.If(b - a < 0, 0, b - a)) if ty is not TStr else z3.SubString(base.t, a, z3.If(b - a < 0, 0, b - a)))
     raise err(f"slice of {ty}")
 
